@@ -150,7 +150,8 @@ DefaultsOf(dd)  == {<<p, DefaultOf(dd, p)>> : p \in {q \in AllParams(dd) : HasDe
 SameRun(r)      == /\ SeqToSet(r.inputs) = SeqToSet(r.prev.inputs)
                    /\ MapSpecsOf(r.desc) = MapSpecsOf(r.prev.desc)
                    /\ DefaultsOf(r.desc) = DefaultsOf(r.prev.desc)
-Continues(r)    == r.cfg.cleanup \/ ~r.cfg.folder \/ SameRun(r)      \* not refused for being a different run
+Identical(r)    == r.desc = r.prev.desc /\ SeqToSet(r.inputs) = SeqToSet(r.prev.inputs)
+Continues(r)    == r.cfg.cleanup \/ ~r.cfg.folder \/ Identical(r)    \* cannot be refused for being a different run
 MapsSomething(dd) == \E i \in FIdx(dd) : HasMapInputs(dd.funcs[i])
 (* where the implementation looks at the storage name when the check is late: only when a run folder is given (without  *)
 (* one _maybe_run_folder resolves the class first) and only when some output needs a storage array                     *)
@@ -168,8 +169,11 @@ CheckStorage   == Step("CheckStorage", (StorageCheck = "early" \/ ~req.cfg.folde
 Cleanup        == Step("Cleanup", TRUE, "CheckShapes", AbsentDisk)
 (* cleanup=False continues the previous run: the new shapes must be computable and MapSpecs, shapes, inputs and        *)
 (* defaults must be those of the run in the folder (_compare_to_previous_run_info); a different request is refused     *)
-(* here - that is not a clause of Valid, but it is a rejection and has to be pure as well                              *)
-CompareToPrevious == Step("CompareToPrevious", ShapeFault(req.desc, req.inputs, 1) = "none" /\ SameRun(req), "CheckShapes", disk)
+(* here - that is not a clause of Valid, but it is a rejection and has to be pure as well.  The identical request must *)
+(* pass; one that differs in inputs / MapSpecs / defaults must not; any other different pipeline MAY be refused        *)
+(* (the code compares the topologically sorted MapSpec strings, which an extra edge can reorder): don't-care.          *)
+CompareToPrevious == \/ Step("CompareToPrevious", ShapeFault(req.desc, req.inputs, 1) = "none" /\ SameRun(req), "CheckShapes", disk)
+                     \/ (~Identical(req) /\ Step("CompareToPrevious", FALSE, "CheckShapes", disk))
 CheckShapes    == Step("CheckShapes", ShapeFault(req.desc, req.inputs, 1) = "none",
                        IF req.cfg.folder THEN "DumpRunInfo" ELSE "InitStore", disk)
 DumpRunInfo    == Step("DumpRunInfo", TRUE, "DumpInputs", [disk EXCEPT !.run_info = "new"])
@@ -187,6 +191,8 @@ PrepareNext == \/ Construct \/ CheckExecutorParallel \/ Subpipeline \/ ValidateI
 (* invariants *)
 RejectIsPure  == pc = "rejected" => (calls = 0 /\ (~req.cfg.cleanup => disk = PrevDisk))
 NoCodeBeforeAccept == calls > 0 => pc = "returned"
-OnlyReject    == ~Valid(req) => pc # "returned" /\ pc # "Run"      \* an invalid request never reaches user code
-ValidAccepted == (Valid(req) /\ Continues(req)) => pc # "rejected"
+(* an invalid request never reaches user code (written as the contrapositive so that TLC evaluates Valid only there) *)
+OnlyReject    == (pc = "returned" \/ pc = "Run") => Valid(req)
+(* a valid request (that is not a different run continuing a folder) is not rejected *)
+ValidAccepted == pc = "rejected" => ~(Valid(req) /\ Continues(req))
 =============================================================================
